@@ -894,7 +894,7 @@ class t2listing(object):
                     # now at the start of the next known table, which still has to be read:
                     tablename = next_tablename
                     continue
-            last_tablename = tablename
+            if tablename in self._tablenames: last_tablename = tablename
             tablename = self.next_table()
 
     def read_tables_TOUGHplus(self):
